@@ -104,15 +104,26 @@ class Engine:
     def elem_ref(self, st, vref, idx):
         f = self.uf('elem', I, I, I); fv = self.uf('elem_v', I, I); fi = self.uf('elem_i', I, I); tg = self.uf('tag', I, I)
         t = f(vref, idx)
-        self.axiom_once(st, t, lambda: [z3.And(fv(t) == vref, fi(t) == idx, t > 0, tg(t) == 1)])
+        self.axiom_once(st, t, lambda: [z3.And(fv(t) == vref, fi(t) == idx, t > 0, tg(t) == 1, self.root_of(t) == self.root_of(vref))])
         return t
+
+    def root_of(self, ref):
+        """the outermost object a (sub-)object belongs to: objects created by the function under analysis have negative
+        roots, the objects passed in have positive roots; so parts of locals never alias parts of the inputs"""
+        if z3.is_int_value(ref) and ref.as_long() < 0: return ref
+        return self.uf('root', I, I)(ref)
 
     def sub_ref(self, st, key, ref):
         f = self.uf('sub:' + key, I, I); finv = self.uf('subinv:' + key, I, I); tg = self.uf('tag', I, I)
         t = f(ref)
         k = self.tag_of(key) + 1
-        self.axiom_once(st, t, lambda: [z3.And(finv(t) == ref, t > 0, tg(t) == k)])
+        self.axiom_once(st, t, lambda: [z3.And(finv(t) == ref, t > 0, tg(t) == k, self.root_of(t) == self.root_of(ref))])
         return t
+
+    @property
+    def modular(self):
+        # contract option (listed with the safety kinds): integer conversions and unsigned arithmetic are modulo 2^N
+        return 'modular' in self.safety
 
     def new_object(self):
         return z3.IntVal(-next(self.alloc))
@@ -352,7 +363,11 @@ class Engine:
             def leaf(path, lt):
                 key = self.vec_data_key(ety if ety.is_scalar() else ety, path) if not ety.is_scalar() else self.vec_data_key(ety)
                 arr = self.harr(st, key, z3.ArraySort(I, z3.ArraySort(I, self.sort_of(lt))))
-                return z3.Select(z3.Select(arr, vref), idx)
+                v = z3.Select(z3.Select(arr, vref), idx)
+                if self.modular and lt.kind == 'int':
+                    lo, hi = TY.INT_RANGES[lt.name]
+                    self.axiom_once(st, v, lambda: [z3.And(v >= lo, v <= hi)])     # an element of type T holds a value of T
+                return v
             return self.build_value(ety, leaf)
         return ObjLV(self.elem_ref(st, vref, idx), ety)
 
@@ -580,6 +595,12 @@ class Engine:
             return Opaque('fnref', rd)
         raise Unsupported('DeclRefExpr to %s %s at %s' % (kind, rd.get('name'), self.where(n, fr)))
 
+    def enclosing_function(self, vid):
+        p = self.ast.parent.get(vid)
+        while p is not None and p.get('kind') not in FN_KINDS:
+            p = self.ast.parent.get(p['id']) if 'id' in p else None
+        return p
+
     def is_function_local(self, vid):
         p = self.ast.parent.get(vid)
         while p is not None and p.get('kind') in ('CapturedDecl', 'DecompositionDecl'):
@@ -712,6 +733,14 @@ class Engine:
             if slo >= lo and shi <= hi: return v
         if src is not None and src.kind == 'bool': return v
         if z3.is_int_value(v) and lo <= v.as_long() <= hi: return v
+        if self.modular:
+            # C++20 / every supported ABI: conversion to an integer type is modulo 2^N
+            w = hi - lo + 1
+            if src is not None and src.kind == 'int':
+                slo, shi = TY.INT_RANGES[src.name]
+                if slo >= lo - w and shi <= hi + w:
+                    return z3.If(v < lo, v + w, z3.If(v > hi, v - w, v))
+            return (v - lo) % w + lo
         if self.safety_on('narrowing'):
             self.oblige(st, 'safety:int-conversion-in-range', z3.And(v >= lo, v <= hi), where=self.where(n, fr))
         return v
@@ -745,7 +774,11 @@ class Engine:
                 new = Iter(old.vref, old.idx + (1 if op == '++' else -1), old.cty)
             else:
                 new = old + (1 if op == '++' else -1)
-                self.range_check(st, new, TY.of_node(n), n, fr)
+                tn = TY.of_node(n)
+                if self.modular and tn.kind == 'int' and TY.INT_RANGES[tn.name][0] == 0:
+                    new = new % (TY.INT_RANGES[tn.name][1] + 1)
+                else:
+                    self.range_check(st, new, tn, n, fr)
             self.store(st, lv, new)
             return old if n.get('isPostfix') else lv
         if op == '-':
@@ -811,6 +844,12 @@ class Engine:
         elif op == '!=': return a != b
         else: raise Unsupported('binary operator %s' % op)
         if t.kind == 'int' and op in ('+', '-', '*'):
+            if self.modular and TY.INT_RANGES[t.name][0] == 0:
+                hi = TY.INT_RANGES[t.name][1]
+                rs = z3.simplify(r)
+                if not (z3.is_int_value(rs) and 0 <= rs.as_long() <= hi):
+                    r = r % (hi + 1)       # unsigned arithmetic is modulo 2^N
+                return r
             self.range_check(st, r, t, n, fr)
         return r
 
